@@ -54,19 +54,51 @@ def run(chk, repo: Repo):
     # R1
     from .common import canon_fn, views
     from ..pattern import norm as pn
-    adj4 = canon_fn(repo, lm, adj, 4)
-    rets = [n for n in ast.walk(adj4) if isinstance(n, ast.Return)]
-    ok = len(rets) == 1 and isinstance(rets[0].value, ast.Call) and call_name(rets[0].value) == "self._apply_func" and \
-        [_norm(a) for a in rets[0].value.args] == ["self._adjoint_func", "self.domain_geometry", "self.range_geometry", func_params(adj)[1], func_params(adj)[2]]
+    from .common import closed_is, KwCanon
+    kc = KwCanon(repo, lm, ["_apply_func"])
+    y_, ip_ = func_params(adj)[1:3]
+    ok, outs = closed_is(repo, lm, adj, f"self._apply_func(self._adjoint_func,self.domain_geometry,self.range_geometry,{y_},{ip_})", kc=kc)
     chk.add("C07-R1", f"{lm.qual}.adjoint", ok, site(repo, adj), "_apply_func(self._adjoint_func, domain_geometry, range_geometry, y, is_par)",
-            f"adjoint does not apply the raw adjoint with swapped geometries: {unparse(rets[0].value) if rets else '?'}", adj)
+            f"adjoint does not apply the raw adjoint with swapped geometries: {outs}", adj)
     init = repo.method(lm, "__init__")[1]
-    t = _norm(init)
-    ok = "forward_func=lambdax:self._matrix@x" in t and "adjoint_func=lambday:self._matrix.T@y" in t and "self._matrix=matrix" in t \
-        and "self._adjoint_func=adjoint_func" in t and "super().__init__(forward_func,range_geometry,domain_geometry)" in t
+    # matrix-backed construction, followed path by path with `callable(forward)` false: what is handed to Model.__init__ as the raw forward, what is
+    # stored as the raw adjoint and as the matrix (closures are compared as `lambda _a0: body`)
+    from ..pathtable import walk_paths, callable_text, _Sub
+    from ..canon import clone as _clone
+    iv = canon_fn(repo, lm, init, 1)
+    fwd_p = func_params(init)[1]
+    val = {pn(f"callable({fwd_p})"): False}
+    problems = []
+
+    def is_super(a_):
+        return isinstance(a_, ast.Expr) and isinstance(a_.value, ast.Call) and pn(a_.value.func) == "super().__init__"
+    sup = [r for k_, r in walk_paths(iv, val, pn, stop_pred=is_super) if k_ == "stop"]
+    if not sup:
+        problems.append("Model.__init__ is not reached for a matrix")
+    for env, a_ in sup:
+        f0 = a_.value.args[0] if a_.value.args else None
+        f0 = env.get(f0.id, f0) if isinstance(f0, ast.Name) else f0
+        if f0 is None or callable_text(f0, pn) != "lambda _a0:self._matrix@_a0":
+            problems.append(f"raw forward of a matrix-backed model is `{callable_text(f0, pn) if f0 is not None else '?'}`, not x -> self._matrix @ x")
+    ends = walk_paths(iv, val, pn)
+    falls = [r for k_, r in ends if k_ == "fall"]
+    if not falls or any(k_ in ("unknown", "loop") for k_, r in ends):
+        problems.append(f"construction paths not decidable: {[ (k_, r) for k_, r in ends if k_ in ('unknown', 'loop')][:1]}")
+    for env in falls:
+        a0 = env.get("self._adjoint_func")
+        if a0 is None or callable_text(a0, pn) != "lambda _a0:self._matrix.T@_a0":
+            problems.append(f"raw adjoint of a matrix-backed model is `{callable_text(a0, pn) if a0 is not None else '?'}`, not y -> self._matrix.T @ y")
+        m0 = env.get("self._matrix")
+        if m0 is None or pn(m0) != fwd_p:
+            problems.append(f"the stored matrix is `{pn(m0) if m0 is not None else '?'}`, not the given one")
+    ok = not problems
     chk.add("C07-R1", f"{lm.qual}.__init__/matrix-wiring", ok, site(repo, init), "forward = M @ x, adjoint = M.T @ y of the same stored matrix",
-            "matrix-backed model does not wire forward = M@x and adjoint = M.T@y of the same stored matrix", init)
-    ok = "self._gradient_func=lambdadirection,wrt:self._adjoint_func(direction)" in t
+            "matrix-backed model does not wire forward = M@x and adjoint = M.T@y of the same stored matrix: " + "; ".join(sorted(set(problems))), init)
+    # on every construction path (matrix or callables) the gradient slot is (direction, wrt) -> raw adjoint(direction)
+    allends = walk_paths(iv, {}, pn)
+    gfalls = [r for k_, r in allends if k_ == "fall"]
+    ok = bool(gfalls) and not any(k_ in ("unknown", "loop") for k_, r in allends) and \
+        all(e_.get("self._gradient_func") is not None and callable_text(e_["self._gradient_func"], pn) == "lambda _a0,_a1:self._adjoint_func(_a0)" for e_ in gfalls)
     chk.add("C07-R1", f"{lm.qual}.__init__/gradient", ok, site(repo, init), "gradient(direction, wrt) = raw adjoint(direction)",
             "the linear model's gradient is not its raw adjoint applied to the direction", init)
     g = CFG(init)
